@@ -7,8 +7,11 @@ import os
 from . import common as C
 
 SHARDS = 4
-FAMILIES = {"quick": [("hc:q", 4000), ("hc:closepend", 1500), ("hc:bridge", 800)],
-            "thorough": [("hc:q", 60000), ("hc:closepend", 20000), ("hc:bridge", 10000)]}
+FAMILIES = {"quick": [("hc:q", 4000), ("hc:closepend", 1500), ("hc:bridge", 800), ("hc:race", 2000), ("hc:bridgerace", 1200)],
+            "thorough": [("hc:q", 60000), ("hc:closepend", 20000), ("hc:bridge", 10000), ("hc:race", 40000),
+                         ("hc:bridgerace", 20000)]}
+# racing families: no quiescence between the actions, so no totally ordered log: judged by monitors only
+MONITOR_ONLY = ("hc:race", "hc:bridgerace")
 
 
 def _worker(fam, seed, lo, hi, shard):
@@ -96,8 +99,13 @@ def monitor(sc):
                 return "Recv reported request %s (Do result %s) as %s" % (j, do[j], f[3])
         elif f[:2] == ["o", "closeret"]:
             closeret = True
+        elif f[0] == "closeret":
+            closeret = True
         elif f[0] == "snap":
             snap = (int(f[1]), int(f[2]))
+            if len(f) >= 6 and (int(f[3]) != int(f[5]) or int(f[4]) != int(f[3])):
+                return ("after Close returned and the bubble was quiescent: %s messages accepted by Send, %s round trips "
+                        "started, %s finished" % (f[5], f[3], f[4]))
             if (closeret or sc["fam"] == "hc:bridge") and snap[0] != snap[1]:
                 return "after Close returned %d response bodies were opened but %d closed" % snap
     return None
@@ -133,8 +141,9 @@ def _accept(lp, nofix=False):
 
 def judge(ctx, res, fam, logs, crashes, stats):
     verdicts = {}
-    for lp in logs:
-        verdicts.update(_accept(lp))
+    if fam not in MONITOR_ONLY:
+        for lp in logs:
+            verdicts.update(_accept(lp))
     if "__error__" in verdicts:
         res.violation("corr:model-run", "the channel model runner failed",
                       dict(kind="broken-correspondence", part="hc", log=verdicts["__error__"]), found_input=False)
@@ -143,11 +152,18 @@ def judge(ctx, res, fam, logs, crashes, stats):
     for lp in logs:
         for sc in scenarios(lp):
             stats["evals"] += 1
+            if fam in MONITOR_ONLY:
+                stats["race"] = stats.get("race", 0) + 1
             body = "\n".join(sc["lines"][1:])
-            if ("env\tsend\tok" in body and "env\tclose" in body) or "\nbr\t" in "\n" + body:
+            if ("env\tsend\tok" in body and "env\tclose" in body) or "\nbr\t" in "\n" + body or \
+                    (fam in MONITOR_ONLY and "sends=0" not in body):
                 stats["distinct"].add(C.sha(fam + body))
             for l in sc["lines"]:
                 f = l.split("\t")
+                if f[0] == "race":
+                    k = "race:" + ":".join(x for x in f[1:] if x.startswith(("procs", "sends", "notify")))
+                    stats["kinds"][k] = stats["kinds"].get(k, 0) + 1
+                    continue
                 k = f[0] + (":" + f[1] if f[0] in ("env", "o") else "") + (":" + f[3].split(":")[0] if f[0] == "br" else "")
                 if f[:2] == ["env", "do"]:
                     k += ":" + f[3]
@@ -171,7 +187,7 @@ def judge(ctx, res, fam, logs, crashes, stats):
             v = verdicts.get((sc["fam"], sc["seed"], str(sc["idx"])))
             if m:
                 monfail.append((sc, m, v))
-            elif sc["complete"] and (v is None or v[0] != "OK"):
+            elif sc["complete"] and fam not in MONITOR_ONLY and (v is None or v[0] != "OK"):
                 rejected.append((sc, v))
     for sc, m, v in monfail[:3]:
         res.violation("c19:hc:monitor:" + C.sha(m.rstrip("0123456789 "))[:8] + ":" + fam, m,
@@ -240,6 +256,6 @@ def run(ctx, res):
     res.distinct_nontrivial += len(stats["distinct"])
     res.extra["hc_event_distribution"] = stats["kinds"]
     res.extra["hc_replies_pending_when_close_called"] = {str(k): v for k, v in sorted(stats["pending_at_close"].items())}
-    res.extra["modes"] = dict(Q=stats["evals"], S=0, R=0)
+    res.extra["modes"] = dict(Q=stats["evals"] - stats.get("race", 0), S=0, R=stats.get("race", 0))
     for s in stats["samples"][:1]:
         res.samples.append(" / ".join(x.replace("\t", " ") for x in s))
